@@ -45,6 +45,8 @@ type desc struct {
 	OffY  int64      `json:"off_y"`
 	Model bool       `json:"model"` // also compare with the Coq model (small cases)
 	Gen   string     `json:"gen"`
+	Wide  bool       `json:"wide,omitempty"` // beyond the exact grid: admitted by the faithful-run filter (wide.go)
+	Dup   bool       `json:"dup,omitempty"`  // contains exactly repeated points: coverage / every-point-used not judged
 }
 
 type P struct{ x, y int64 }
@@ -389,6 +391,7 @@ type outcome struct {
 	tris  [][3]int
 	pos   [][3]float64
 	sup   [][2]float64 // triangulation.SuperTriangle of the same input
+	alens []int        // length of every vertex attribute of the returned mesh (sorted by kind, name)
 	crash string
 }
 
@@ -413,6 +416,18 @@ func runImpl(d desc) (o outcome) {
 	}
 	for i := 0; i+2 < idx.Len(); i += 3 {
 		o.tris = append(o.tris, [3]int{idx.At(i), idx.At(i + 1), idx.At(i + 2)})
+	}
+	for _, a := range m.Float4Attributes() {
+		o.alens = append(o.alens, m.Float4Attribute(a).Len())
+	}
+	for _, a := range m.Float3Attributes() {
+		o.alens = append(o.alens, m.Float3Attribute(a).Len())
+	}
+	for _, a := range m.Float2Attributes() {
+		o.alens = append(o.alens, m.Float2Attribute(a).Len())
+	}
+	for _, a := range m.Float1Attributes() {
+		o.alens = append(o.alens, m.Float1Attribute(a).Len())
 	}
 	if !m.HasFloat3Attribute(modeling.PositionAttribute) {
 		o.crash = "no Position attribute"
@@ -473,7 +488,7 @@ func trueDelaunay(ps []P) map[[3]int]bool {
 					if l == i || l == j || l == k {
 						continue
 					}
-					det := incircle(ps[i], ps[j], ps[k], ps[l])
+					det := incircleSign(ps[i], ps[j], ps[k], ps[l])
 					if (o > 0 && det > 0) || (o < 0 && det < 0) {
 						ok = false
 					}
@@ -600,7 +615,8 @@ func coqCase(d desc, o outcome, posInt [][3]int64, supHalf [][2]int64, needSpec,
 		}
 		fmt.Fprintf(&b, "(%d,%d)", p[0], p[1])
 	}
-	b.WriteString("]%Z")
+	b.WriteString("]%Z ")
+	b.WriteString(hx.CoqListNat(o.alens))
 	return b.String()
 }
 
@@ -614,7 +630,17 @@ func toUnit(v float64, shift int) (int64, bool) {
 
 func runCase(run *hx.Run, d desc, kind string) {
 	ps := gridPts(d)
-	if len(ps) < 3 || !generalPosition(ps) || !exactOK(d) {
+	uniq := ps
+	if d.Dup {
+		uniq = dedupe(ps)
+	}
+	gp := len(uniq) >= 3
+	if gp && extent(uniq) <= 1000 {
+		gp = generalPosition(uniq)
+	} else if gp {
+		gp = len(uniq) <= 16 && generalPositionWide(uniq)
+	}
+	if !gp || !(exactOK(d) || (d.Wide && !d.Dup && wideOK(d))) {
 		run.Count("skipped:not-general-position-or-not-exact")
 		return
 	}
@@ -671,7 +697,13 @@ func runCase(run *hx.Run, d desc, kind string) {
 		}
 		run.Count("transformed")
 	}
-	if c.GoFail == "" {
+	if c.GoFail == "" && d.Dup {
+		run.Count("repeated-points(coverage not judged)")
+	}
+	if c.GoFail == "" && !d.Dup {
+		if _, orphan := faithful(ps); orphan {
+			run.Count("some-input-point-in-no-triangle")
+		}
 		complete, key, missing := classify(ps, o.tris)
 		c.FailKey = key
 		switch {
@@ -687,7 +719,7 @@ func runCase(run *hx.Run, d desc, kind string) {
 	if c.GoFail != "" {
 		c.Coq = coqCase(desc{Pts: d.Pts}, outcome{}, nil, nil, true, true)
 	} else {
-		c.Coq = coqCase(d, o, posInt, supHalf, true, !known)
+		c.Coq = coqCase(d, o, posInt, supHalf, true, !known && !d.Dup)
 	}
 	run.Count("gen:" + d.Gen)
 	switch n := len(ps); {
@@ -741,7 +773,7 @@ func main() {
 	}
 	// fixed corner cases: the input of the repaired defect (a near-unit square at scale 2^-7 and
 	// 2^-20: the pinned super triangle lay below it -> 0 triangles), the known-finding example, single
-	// triangles in both input orders, a point inside a triangle, a thin strip and a far offset
+	// triangles in both input orders, a point inside a triangle, a thin strip, a far offset, a sparse sliver
 	for _, d := range []desc{
 		{Pts: [][2]int64{{0, 0}, {1, 0}, {1, 1}, {0, 2}}, Shift: -7, Model: true, Gen: "fixed"},
 		{Pts: [][2]int64{{0, 0}, {1, 0}, {1, 1}, {0, 2}}, Shift: -20, Model: true, Gen: "fixed"},
@@ -752,6 +784,11 @@ func main() {
 		{Pts: [][2]int64{{0, 0}, {9, 1}, {2, 8}, {4, 3}}, Model: true, Gen: "fixed"},
 		{Pts: [][2]int64{{4, 3}, {0, 0}, {9, 1}, {2, 8}}, Shift: 20, OffX: 1 << 10, OffY: -(1 << 10), Model: true, Gen: "fixed"},
 		{Pts: [][2]int64{{0, 0}, {127, 1}, {3, 2}, {60, 0}, {90, 2}, {30, 1}}, OffX: 1 << 30, OffY: 1 << 30, Model: true, Gen: "fixed"},
+		// 8 points along the diagonal, sideways spread below 1/100 of the length (scaled by 2^-10, and offset):
+		// the finite super triangle leaves 3 triangles and several points without any triangle — vertex
+		// identity (one vertex per input point, in input order) must survive
+		{Pts: [][2]int64{{782, 788}, {888, 890}, {597, 601}, {113, 125}, {0, 0}, {582, 586}, {1173, 1171}, {253, 251}}, Shift: -10, Model: true, Wide: true, Gen: "fixed"},
+		{Pts: [][2]int64{{782, 788}, {888, 890}, {597, 601}, {113, 125}, {0, 0}, {582, 586}, {1173, 1171}, {253, 251}}, OffX: 1 << 20, OffY: -(1 << 18), Model: true, Wide: true, Gen: "fixed"},
 	} {
 		runCase(run, d, "pts")
 	}
@@ -763,6 +800,10 @@ func main() {
 	for i := 0; i < run.N; i++ {
 		var d desc
 		switch {
+		case i%8 == 3: // sparse thin near-collinear sets far beyond the exact grid
+			d = genSliver(r)
+		case i%16 == 13: // exactly repeated points
+			d = genDup(r)
 		case i%16 == 7: // checker only, larger
 			d = genDesc(r, r.Range(41, maxBig), false)
 		case i%4 == 0:
